@@ -309,6 +309,7 @@ func runDoc(c *hx.Ctx, k *kase, data []byte, g *genInfo) {
 	oracles(c, k, data, &run, g)
 	entryPoints(c, k, data, &run)
 	cacheOrder(c, k, data, &run)
+	apiOps(c, k, data)
 }
 
 // ---- other entry points --------------------------------------------------------
